@@ -598,7 +598,7 @@ func (x *Exec) global(g *ssa.Global) Obj {
 		pp := g.Pkg.Pkg.Path()
 		if !x.inited[pp] {
 			x.inited[pp] = true
-			if denyInit[pp] || strings.HasPrefix(pp, "internal/") || strings.HasPrefix(pp, "runtime") {
+			if denyInit[pp] || (strings.HasPrefix(pp, "internal/") && pp != "internal/oserror") || strings.HasPrefix(pp, "runtime") {
 				if g.Name() != "init$guard" {
 					x.res.Inconclusive["note: read a global of an uninitialised (denied) package: "+g.String()] += 0
 				}
